@@ -13,4 +13,5 @@ python3 ../harness/mkprops.py C20 Props/headers/h20.txt \
   Proofs/StepsProofs.v > Props/C20.v
 python3 ../harness/mkprops.py C08 Props/headers/h08.txt \
   Proofs/MsProofs.v:build_graph_valid,from_ms_valid,build_graph_generations,en_resets_growth,en_resets_growth_unchanged_case,group_by_time_concat,group_by_time_same \
-  Proofs/FromMsRefine.v Proofs/FromMsHistory.v Proofs/MigsFromMatrices.v Proofs/FromMsRates.v > Props/C08.v
+  Proofs/FromMsRefine.v Proofs/FromMsHistory.v Proofs/MigsFromMatrices.v Proofs/FromMsRates.v \
+  Proofs/FromMsGrowth.v:OkEv_of_valid,step_growth_refine,finish_group_growth,run_groups_growth_refine,run_groups_both_refine,init_growth tail:Props/headers/t08.txt > Props/C08.v
